@@ -114,6 +114,265 @@ theorem runU_strict (uops : List UOp) (st : St WriteWrapper) (h : st.out.w.err =
         refine ⟨?_, Or.inr ⟨by simp [he], _, rfl⟩⟩
         simpa using runU_poisoned us ⟨(st.out.write c).1, st.wraps⟩ he
 
+/-! ## user code as a strategy (`UserCode`, `XOp`) -/
+
+/-- **Sticky**: user code running against a poisoned adapter cannot reach the sink, whatever it
+    does with the results of its writes -/
+theorem UserCode.run_poisoned (u : UserCode) (o : Out WriteWrapper) {e : IoErr} (h : o.w.err = some e) :
+    (u.run o).1.w = o.w := by
+  induction u generalizing o with
+  | ret ok => rfl
+  | write c k ih =>
+    simp only [UserCode.run]
+    have hw := Out.write_poisoned o c h
+    rw [ih _ _ (by rw [hw]; exact h), hw]
+
+theorem stepX_poisoned (x : XOp) (st : St WriteWrapper) {e : IoErr} (h : st.out.w.err = some e) :
+    (stepX x st).1.out.w = st.out.w := by
+  cases x with
+  | strict o => simpa [stepX] using step_w o st h
+  | user u => simpa [stepX] using UserCode.run_poisoned u st.out h
+
+theorem runX_poisoned (xs : List XOp) (st : St WriteWrapper) {e : IoErr} (h : st.out.w.err = some e) :
+    (runX xs st).1.out.w = st.out.w := by
+  induction xs generalizing st with
+  | nil => simp [runX]
+  | cons x xs ih =>
+    have hs := stepX_poisoned x st h
+    simp only [runX]
+    rcases hx : stepX x st with ⟨st', halt⟩
+    rw [hx] at hs
+    simp only at hs
+    cases halt with
+    | none =>
+      simp only []
+      rw [ih st' (by rw [hs]; exact h), hs]
+    | some y => cases y <;> simpa using hs
+
+/-! ### the `String` side only ever appends -/
+
+theorem Out.write_string_appends (o : Out Bytes) (c : Chunk) :
+    (∃ x, (o.write c).1.w = o.w ++ x) ∧ (o.write c).2 = true := by
+  obtain ⟨w, stack⟩ := o
+  cases stack with
+  | nil => cases c <;> exact ⟨⟨_, rfl⟩, rfl⟩
+  | cons top rest => cases top <;> exact ⟨⟨[], by simp [Out.write]⟩, rfl⟩
+
+theorem UserCode.run_string_appends (u : UserCode) (o : Out Bytes) : ∃ x, (u.run o).1.w = o.w ++ x := by
+  induction u generalizing o with
+  | ret ok => exact ⟨[], by simp [UserCode.run]⟩
+  | write c k ih =>
+    simp only [UserCode.run]
+    obtain ⟨⟨x, hx⟩, _⟩ := Out.write_string_appends o c
+    obtain ⟨y, hy⟩ := ih (o.write c).2 (o.write c).1
+    exact ⟨x ++ y, by rw [hy, hx, List.append_assoc]⟩
+
+theorem stepX_string_appends (x : XOp) (st : St Bytes) : ∃ y, (stepX x st).1.out.w = st.out.w ++ y := by
+  cases x with
+  | strict o =>
+    cases o with
+    | write c =>
+      obtain ⟨⟨y, hy⟩, _⟩ := Out.write_string_appends st.out c
+      exact ⟨y, by simpa [stepX, step] using hy⟩
+    | beginCapture d => exact ⟨[], by simp [stepX, step, Out.beginCapture]⟩
+    | endCapture =>
+      obtain ⟨⟨w, stack⟩, wraps⟩ := st
+      cases stack <;> exact ⟨[], by simp [stepX, step, Out.endCapture]⟩
+    | enter w => exact ⟨[], by simp [stepX, step]⟩
+    | leave => exact ⟨[], by simp [stepX, step]⟩
+    | fail e => exact ⟨[], by simp [stepX, step]⟩
+    | panic => exact ⟨[], by simp [stepX, step]⟩
+  | user u =>
+    obtain ⟨y, hy⟩ := UserCode.run_string_appends u st.out
+    exact ⟨y, by simpa [stepX] using hy⟩
+
+theorem runX_string_appends (xs : List XOp) (st : St Bytes) : ∃ y, (runX xs st).1.out.w = st.out.w ++ y := by
+  induction xs generalizing st with
+  | nil => exact ⟨[], by simp [runX]⟩
+  | cons x xs ih =>
+    obtain ⟨y, hy⟩ := stepX_string_appends x st
+    simp only [runX]
+    rcases hx : stepX x st with ⟨st', halt⟩
+    rw [hx] at hy
+    simp only at hy
+    cases halt with
+    | none =>
+      simp only []
+      obtain ⟨z, hz⟩ := ih st'
+      exact ⟨y ++ z, by rw [hz, hy, List.append_assoc]⟩
+    | some r => cases r <;> exact ⟨y, hy⟩
+
+theorem runX_cons_poisoned (x : XOp) (xs : List XOp) (st : St WriteWrapper) {e : IoErr}
+    (h : (stepX x st).1.out.w.err = some e) :
+    (runX (x :: xs) st).1.out.w = (stepX x st).1.out.w := by
+  simp only [runX]
+  rcases hx : stepX x st with ⟨st', halt⟩
+  rw [hx] at h
+  cases halt with
+  | none => exact runX_poisoned xs st' h
+  | some r => cases r <;> rfl
+
+theorem runX_cons_string (x : XOp) (xs : List XOp) (st : St Bytes) :
+    ∃ y, (runX (x :: xs) st).1.out.w = (stepX x st).1.out.w ++ y := by
+  simp only [runX]
+  rcases hx : stepX x st with ⟨st', halt⟩
+  cases halt with
+  | none => exact runX_string_appends xs st'
+  | some r => cases r <;> exact ⟨[], by simp⟩
+
+/-! ### lockstep of the sink side and the `String` side up to the first sink failure -/
+
+/-- the two sides agree: same capture stack, no sink failure so far, everything delivered -/
+structure Agree (oW : Out WriteWrapper) (oS : Out Bytes) : Prop where
+  stack : oW.stack = oS.stack
+  err : oW.w.err = none
+  clean : Clean oW.w.calls
+  deliv : delivered oW.w.calls = oS.w
+
+/-- the sink side is stuck at its first failure; what it took is a prefix of the string -/
+def Stuck (w : WriteWrapper) (buf : Bytes) : Prop :=
+  ∃ e, w.err = some e ∧ FailsWith w.calls e ∧ delivered w.calls <+: buf
+
+theorem Stuck.mono {w : WriteWrapper} {buf : Bytes} (h : Stuck w buf) (x : Bytes) : Stuck w (buf ++ x) := by
+  obtain ⟨e, h1, h2, h3⟩ := h
+  exact ⟨e, h1, h2, h3.trans (List.prefix_append _ _)⟩
+
+theorem Out.write_lock (oW : Out WriteWrapper) (oS : Out Bytes) (c : Chunk) (h : Agree oW oS) :
+    ((oW.write c).2 = true ∧ Agree (oW.write c).1 (oS.write c).1) ∨
+    ((oW.write c).2 = false ∧ Stuck (oW.write c).1.w (oS.write c).1.w) := by
+  obtain ⟨w, stack⟩ := oW
+  obtain ⟨b, stackS⟩ := oS
+  obtain ⟨hst, herr, hclean, hdel⟩ := h
+  simp only at hst herr hclean hdel
+  subst hst
+  cases stack with
+  | nil =>
+    obtain ⟨h1, h2, h3⟩ := writeAll_spec w.script c.bytes
+    have hput : put b c = (b ++ c.bytes, true) := by cases c <;> rfl
+    simp only [Out.write, put_wrapper, writeBytes_of_none herr, WriteWrapper.writeBytesOk, hput]
+    cases he : (writeAll w.script c.bytes).err with
+    | none =>
+      left
+      obtain ⟨hd, hc⟩ := h2 he
+      exact ⟨rfl, ⟨rfl, herr, clean_append.2 ⟨hclean, hc⟩, by simp [hdel, hd]⟩⟩
+    | some e =>
+      right
+      refine ⟨rfl, e, rfl, failsWith_append hclean (h3 e he), ?_⟩
+      simp only [delivered_append, hdel]
+      obtain ⟨t, ht⟩ := h1
+      exact ⟨t, by rw [List.append_assoc, ht]⟩
+  | cons top rest =>
+    left
+    cases top with
+    | none => exact ⟨rfl, ⟨rfl, herr, hclean, hdel⟩⟩
+    | some buf => exact ⟨rfl, ⟨rfl, herr, hclean, hdel⟩⟩
+
+theorem UserCode.run_lock (u : UserCode) (oW : Out WriteWrapper) (oS : Out Bytes) (h : Agree oW oS) :
+    (Agree (u.run oW).1 (u.run oS).1 ∧ (u.run oW).2 = (u.run oS).2) ∨
+    Stuck (u.run oW).1.w (u.run oS).1.w := by
+  induction u generalizing oW oS with
+  | ret ok => exact Or.inl ⟨h, rfl⟩
+  | write c k ih =>
+    simp only [UserCode.run]
+    have hS := (Out.write_string_appends oS c).2
+    rcases Out.write_lock oW oS c h with ⟨hok, hag⟩ | ⟨hok, hst⟩
+    · rw [hok, hS]
+      exact ih true _ _ hag
+    · right
+      obtain ⟨e, h1, h2, h3⟩ := hst
+      rw [UserCode.run_poisoned _ _ h1]
+      obtain ⟨x, hx⟩ := UserCode.run_string_appends (k (oS.write c).2) (oS.write c).1
+      rw [hx]
+      exact Stuck.mono ⟨e, h1, h2, h3⟩ x
+
+/-- **Lockstep of whole renders** with user strategies: either the sink never failed, the sides
+    agree at the end and return the same; or the sink side is stuck at its first failure with a
+    prefix of the string. -/
+theorem runX_lock (xs : List XOp) (stW : St WriteWrapper) (stS : St Bytes)
+    (h : Agree stW.out stS.out) (hw : stW.wraps = stS.wraps) :
+    (Agree (runX xs stW).1.out (runX xs stS).1.out ∧ (runX xs stW).2 = (runX xs stS).2) ∨
+    Stuck (runX xs stW).1.out.w (runX xs stS).1.out.w := by
+  induction xs generalizing stW stS with
+  | nil => exact Or.inl ⟨h, rfl⟩
+  | cons x xs ih =>
+    obtain ⟨oW, wraps⟩ := stW
+    obtain ⟨oS, wrapsS⟩ := stS
+    simp only at h hw
+    subst hw
+    cases x with
+    | user u =>
+      rcases UserCode.run_lock u oW oS h with ⟨hag, hres⟩ | hst
+      case inr =>
+        right
+        obtain ⟨e, h1, _, _⟩ := id hst
+        have hW := runX_cons_poisoned (.user u) xs (⟨oW, wraps⟩ : St WriteWrapper) (e := e) (by simpa [stepX] using h1)
+        obtain ⟨y, hS⟩ := runX_cons_string (.user u) xs (⟨oS, wraps⟩ : St Bytes)
+        rw [hW, hS]
+        simpa [stepX] using hst.mono y
+      simp only [runX, stepX]
+      rw [hres]
+      by_cases hok : (u.run oS).2 = true
+      · simp only [hok, if_true]
+        exact ih ⟨(u.run oW).1, wraps⟩ ⟨(u.run oS).1, wraps⟩ hag rfl
+      · simp only [hok]
+        exact Or.inl ⟨hag, rfl⟩
+    | strict o =>
+      cases o with
+      | write c =>
+        simp only [runX, stepX, step]
+        have hS := (Out.write_string_appends oS c).2
+        rcases Out.write_lock oW oS c h with ⟨hok, hag⟩ | ⟨hok, hst⟩
+        · simp only [hok, hS, if_true]
+          exact ih ⟨(oW.write c).1, wraps⟩ ⟨(oS.write c).1, wraps⟩ hag rfl
+        · right
+          simp only [hok, hS, if_true]
+          obtain ⟨y, hy⟩ := runX_string_appends xs ⟨(oS.write c).1, wraps⟩
+          simp only at hy
+          rw [hy]
+          exact hst.mono y
+      | beginCapture d =>
+        simp only [runX, stepX, step]
+        exact ih ⟨oW.beginCapture d, wraps⟩ ⟨oS.beginCapture d, wraps⟩
+          ⟨by simp [Out.beginCapture, h.stack], h.err, h.clean, h.deliv⟩ rfl
+      | endCapture =>
+        obtain ⟨w, stack⟩ := oW
+        obtain ⟨b, stackS⟩ := oS
+        obtain ⟨hst, herr, hclean, hdel⟩ := h
+        simp only at hst herr hclean hdel
+        subst hst
+        cases stack with
+        | nil => exact Or.inl ⟨⟨rfl, herr, hclean, hdel⟩, by simp [runX, stepX, step, Out.endCapture]⟩
+        | cons top rest =>
+          simp only [runX, stepX, step, Out.endCapture]
+          exact ih ⟨⟨w, rest⟩, wraps⟩ ⟨⟨b, rest⟩, wraps⟩ ⟨rfl, herr, hclean, hdel⟩ rfl
+      | enter x =>
+        simp only [runX, stepX, step]
+        exact ih ⟨oW, x :: wraps⟩ ⟨oS, x :: wraps⟩ h rfl
+      | leave =>
+        simp only [runX, stepX, step]
+        exact ih ⟨oW, wraps.tail⟩ ⟨oS, wraps.tail⟩ h rfl
+      | fail e => exact Or.inl ⟨h, by simp [runX, stepX, step]⟩
+      | panic => exact Or.inl ⟨h, by simp [runX, stepX, step]⟩
+
+/-- the facts about a render with user strategies that the theorems are read off from -/
+theorem renderX_facts (xops : List XOp) (script : List Beh) :
+    delivered (renderToX xops script).calls <+: (renderStringX xops).buf ∧
+    ((Clean (renderToX xops script).calls ∧ (renderToX xops script).result = (renderStringX xops).result ∧
+        delivered (renderToX xops script).calls = (renderStringX xops).buf) ∨
+     (∃ e, FailsWith (renderToX xops script).calls e ∧
+        ((renderToX xops script).result = .ok (.error (.writeFailure (some e))) ∨
+         (renderToX xops script).result = .panic))) := by
+  have h := runX_lock xops (St.init (⟨script, [], none⟩ : WriteWrapper)) (St.init ([] : Bytes))
+    ⟨rfl, rfl, clean_nil, rfl⟩ rfl
+  simp only [renderToX, renderStringX]
+  rcases h with ⟨hag, hres⟩ | ⟨e, h1, h2, h3⟩
+  · refine ⟨by rw [hag.deliv]; exact List.prefix_refl _, Or.inl ⟨hag.clean, ?_, hag.deliv⟩⟩
+    rw [finish_of_none hag.err, hres]
+  · refine ⟨h3, Or.inr ⟨e, h2, ?_⟩⟩
+    by_cases hp : (runX xops (St.init (⟨script, [], none⟩ : WriteWrapper))).2 = .panic
+    · right; rw [hp]; rfl
+    · left; exact finish_of_some h1 _ hp
+
 theorem trackFailed_acc (rs : List Bool) (acc : Bool) :
     rs.foldl (fun failed ok => failed || !ok) acc = (acc || rs.any (fun ok => !ok)) := by
   induction rs generalizing acc with
